@@ -161,7 +161,7 @@ def gen_registry_schedules(rng, tier):
                 break
     for _ in range(4000 if tier == 'thorough' else 400):
         nth = rng.choice([2, 2, 3, 4])
-        names = ''.join(rng.choice('aab') for _ in range(nth))
+        names = ''.join(rng.choice('aabA') for _ in range(nth))
         adds = rng.randrange(1, 4)
         n = rng.randrange(6, 60)
         if rng.random() < 0.5:
@@ -246,7 +246,7 @@ def oracle(case, out):
         if out.startswith('CRASH'):
             return ('handles-obtained-concurrently/no-crash', out)
         if out == 'bad-op':
-            return None if re.fullmatch(r'mrg [1-4] [abc]{1,4} [1-5] [cuh][+]?( ; t\d+)*', case.line) is None or len(case.line.split()[2]) != int(case.line.split()[1]) else ('wellformed-case-accepted', out)
+            return None if re.fullmatch(r'mrg [1-4] [abcABC]{1,4} [1-5] [cuh][+]?( ; t\d+)*', case.line) is None or len(case.line.split()[2]) != int(case.line.split()[1]) else ('wellformed-case-accepted', out)
         m = re.search(r'done=(\d) rec=(\S+) got=(\S+)$', out)
         if not m or m.group(1) != '1':
             return ('handles-obtained-concurrently/terminates', out[-120:])
